@@ -98,6 +98,10 @@ SCRIPT = [
     "create table if not exists tt (a int)",
     "create tag cost_center",
     "alter table tt set tag cost_center = 'x'",
+    "create tag cost_center comment = 'c'",
+    "alter table t1 modify column id set tag cost_center = 'x'",
+    "alter table t1 alter column name set tag cost_center = 'y'",
+    "alter table t1 modify column id unset tag cost_center",
     "describe table db2.sch2.t3",
     "show primary keys in schema",
 ]
